@@ -32,33 +32,59 @@ def _fails(x):
     return (x[1] if isinstance(x, tuple) else x % 10) == 1
 
 
+class NoArgsError(Exception):
+    def __init__(self):
+        super().__init__()
+
+
+def _raise(x):
+    """The exception class depends on the item: ValueError / KeyError / StopIteration / an exception without args.
+    The failing item travels in the attribute `item` (args are not reliable across classes)."""
+    v = x[0] if isinstance(x, tuple) else x
+    cls = [ValueError, KeyError, StopIteration, NoArgsError][(v // 10) % 4]
+    e = cls() if cls is NoArgsError else cls(x)
+    e.item = x
+    raise e
+
+
+def _item_of(e):
+    return getattr(e, 'item', None)
+
+
 def _f_map(x):
     if _fails(x):
-        raise ValueError(x)
+        _raise(x)
     return x + 1000
 
 
 def _f_star(a, b):
     if b == 1:
-        raise ValueError((a, b))
+        _raise((a, b))
     return a + 1000
 
 
 def _f_filter(x):
     if _fails(x):
-        raise ValueError(x)
+        _raise(x)
     return (x // 10) % 2 == 0
 
 
 def _f_scan(acc, x):
     if _fails(x):
-        raise ValueError(x)
+        _raise(x)
     return acc + x
 
 
 def _mapped(e):
-    v = e.args[0]
+    v = _item_of(e)
     return -(v[0] if isinstance(v, tuple) else v) - 1
+
+
+def _exc_for(x):
+    try:
+        _raise(x)
+    except Exception as e:
+        return e
 
 
 OPS = {
@@ -93,6 +119,7 @@ def units(tier):
         for h in HANDLERS:
             for d in (DOWN if tier != 'quick' else ['scan', 'count', 'last', 'to_list']):
                 out.append({'fam': 'api', 'op': o, 'handler': h, 'down': d, 'L': L})
+    out.append({'fam': 'routers', 'L': 4 if tier == 'quick' else 5})
     for o in OPS:
         for h in HANDLERS:
             for parent in THROUGH:
@@ -117,6 +144,12 @@ opspecs.FUNCS.setdefault('tens_even', lambda x: (x // 10) % 2 == 0)
 
 
 def cases(unit):
+    if unit['fam'] == 'routers':
+        # two failing stages, each followed by its own router; every assignment of {ok, fails in stage 1, fails in stage 2}
+        for n in range(1, unit['L'] + 1):
+            for flags in itertools.product([0, 1, 2], repeat=n):
+                yield {'fam': 'routers', 'flags': list(flags)}
+        return
     if unit['fam'] == 'through':
         for n in range(1, unit['L'] + 1):
             for fs in spaces.subsets(n):
@@ -159,12 +192,68 @@ def build_pipeline(case, probe, states=None):
         ops.append(rs.error.map(_mapped))
     elif h == 'router':
         errors, route = rs.error.create_error_router()
-        errors.subscribe(on_next=lambda e: dead['items'].append(e.args[0] if isinstance(e, Exception) and e.args else repr(e)),
+        errors.subscribe(on_next=lambda e: dead['items'].append(_item_of(e) if isinstance(e, Exception) else repr(e)),
                          on_error=lambda e: dead.__setitem__('error', e),
                          on_completed=lambda: dead.__setitem__('completed', dead['completed'] + 1))
         ops.append(route())
     ops.extend(opspecs.build(DOWN[case['down']]))
     return ops, dead
+
+
+def run_routers(case, acc):
+    """[map(stage 1), router 1, map(stage 2), router 2] on two interleaved keys, run TWICE on the same pipeline object:
+    each dead letter gets exactly the exceptions of its own stage, in order, and completes once per run."""
+    flags = case['flags']
+    items = [100 * (i % 2) + 10 * i + f for i, f in enumerate(flags)]
+
+    def stage(n):
+        def f(x):
+            if x % 10 == n:
+                e = (KeyError if n == 1 else StopIteration)(x)
+                e.item = x
+                raise e
+            return x + 1000
+        return f
+    dead = [{'items': [], 'completed': 0}, {'items': [], 'completed': 0}]
+    routers = [rs.error.create_error_router(), rs.error.create_error_router()]
+    ops = [rs.ops.map(stage(1)), routers[0][1](), rs.ops.map(stage(2)), routers[1][1](), rs.ops.count()]
+    pipeline = rs.state.with_memory_store([rs.ops.group_by(lambda x: x // 100 % 10, ops)])
+    out = []
+    want1 = [x for x in items if x % 10 == 1]
+    want2 = [x + 1000 for x in items if x % 10 == 2]
+    main_want = None
+    for run in (1, 2):
+        for k in (0, 1):
+            d = dead[k]
+            d['items'], d['completed'] = [], 0
+            routers[k][0].subscribe(on_next=lambda e, d=d: d['items'].append(getattr(e, 'item', repr(e))),
+                                    on_completed=lambda d=d: d.__setitem__('completed', d['completed'] + 1))
+        sink = Sink()
+        sink.subscribe_to(rx.from_(items).pipe(pipeline))
+        acc.evals += 1
+        acc.events += len(items) + 1
+        acc.traces += 1
+        tag = '' if run == 1 else '-on-second-run'
+        if sink.error is not None or sink.completed != 1:
+            out.append({'signature': 'C13|two-routers|main-stream-not-completed%s' % tag, 'detail': {'items': items, 'error': repr(sink.error)}})
+        if main_want is None:
+            main_want = sink.items
+        elif sink.items != main_want:
+            out.append({'signature': 'C13|two-routers|main-output-differs%s' % tag, 'detail': {'items': items, 'first': main_want, 'second': sink.items}})
+        for k, want in ((0, want1), (1, want2)):
+            if dead[k]['items'] != want:
+                out.append({'signature': 'C13|two-routers|dead-letter-%d-%s%s' % (k + 1, harness.diff_kind(want, dead[k]['items']), tag),
+                            'detail': {'items': items, 'expected': want, 'observed': dead[k]['items'], 'other': dead[1 - k]['items']}})
+            if dead[k]['completed'] != 1:
+                out.append({'signature': 'C13|two-routers|dead-letter-%d-not-completed-once%s' % (k + 1, tag),
+                            'detail': {'items': items, 'completed': dead[k]['completed']}})
+        if out:
+            break
+    acc.count('two_router_runs')
+    acc.outcomes.add(fast_hash(repr((flags, main_want))))
+    if 1 in flags and 2 in flags:
+        acc.nontrivial.add(fast_hash(repr(case)))
+    return out[:3]
 
 
 def run_through(case, acc):
@@ -202,7 +291,7 @@ def run_through(case, acc):
                 broke = True
                 break
             if h == 'map':
-                exp.extend(m.item(_mapped(ValueError(x))))
+                exp.extend(m.item(_mapped(_exc_for(x))))
             continue
         for y in om.item(x):
             exp.extend(m.item(y))
@@ -213,7 +302,7 @@ def run_through(case, acc):
         bad = items[first_fail]
         if sink.error is None:
             out.append(viol(case, 'through-%s-unhandled-error-not-surfaced' % case['parent'], {'items': items, 'status': sink.status()}))
-        elif not (isinstance(sink.error, ValueError) and sink.error.args and sink.error.args[0] == bad):
+        elif not (isinstance(sink.error, Exception) and _item_of(sink.error) == bad):
             out.append(viol(case, 'through-%s-wrong-exception-surfaced' % case['parent'], {'items': items, 'error': repr(sink.error)}))
     else:
         sp = harness.status_problem(sink)
@@ -242,6 +331,8 @@ def run_case(case, acc):
         return run_raw(case, acc)
     if case['fam'] == 'through':
         return run_through(case, acc)
+    if case['fam'] == 'routers':
+        return run_routers(case, acc)
     order, fail = case['order'], set(case['fail'])
     star = case['op'] == 'starmap'
     pos = {}
@@ -308,7 +399,7 @@ def run_case(case, acc):
             if h == 'none':
                 break
             if h == 'map':
-                exp.extend(downs[g].item(_mapped(ValueError(x))))
+                exp.extend(downs[g].item(_mapped(_exc_for(x))))
             continue
         for y in models[g].item(x):
             exp.extend(downs[g].item(y))
@@ -319,7 +410,7 @@ def run_case(case, acc):
         bad = items[first_fail]
         if sink.error is None:
             out.append(viol(case, 'unhandled-error-not-surfaced', {'items': items, 'failing_positions': sorted(fail), 'status': sink.status()}))
-        elif not (isinstance(sink.error, ValueError) and sink.error.args and sink.error.args[0] == bad):
+        elif not (isinstance(sink.error, Exception) and _item_of(sink.error) == bad):
             out.append(viol(case, 'wrong-exception-surfaced', {'items': items, 'failing_positions': sorted(fail), 'error': repr(sink.error)}))
         if sink.completed:
             out.append(viol(case, 'completed-after-error', {'items': items}))
@@ -379,7 +470,7 @@ def run_raw(case, acc):
 
         def item(self, x):
             if _fails(x):
-                return self.d.item(_mapped(ValueError(x))) if h == 'map' else []
+                return self.d.item(_mapped(_exc_for(x))) if h == 'map' else []
             o = []
             for y in self.m.item(x):
                 o.extend(self.d.item(y))
